@@ -1,13 +1,70 @@
 """C03 Every request ends exactly once, with one reply, in bounded time.
    spec/lifecycle/RequestLifecycle.tla (Abs, + defect switches), Scenarios.tla (guided-schedule space),
    RequestLifecycleTrace.tla.  Binding B3+B2: each enumerated case is forced on the in-process MOSN with
-   verifhook gates and real timers; the recorded life-cycle trace is validated by TLC."""
-import json, os, random, re, subprocess
+   verifhook gates and real timers; the recorded life-cycle trace is validated by TLC.
+   The shape of the request (no body / a body part of length zero / a body / trailers, as the wire forms of each
+   protocol and a body-replacing stream filter produce it) is a value class of its own: RequestShape.tla (forms),
+   RequestForward.tla (model of the forwarding phases, 4 defect switches), Scenarios.tla ShapeCases (the runs)."""
+import json, os, random, re, subprocess, time
+from concurrent.futures import ThreadPoolExecutor
 import vlib
 import lifecycle_common as lc
 import repotests_part
 
 LEVEL = "model_checking"
+
+
+SHAPE_DEFECTS = ("EmptyBodySkipsDataPhase", "EmptyBodyEndsAtHeaders", "RetryOmitsEmptyBody", "DataPhaseAlwaysEnds")
+SHAPE_PROTOS = (("http1", 4, 6), ("http2", 4, 6), ("bolt", 2, 4), ("boltoneway", 1, 2))   # protocol of the driver, shards in the quick / thorough tier
+
+
+def shape_model_checks(ctx):
+    """RequestForward: the forwarding phases end the request towards the upstream exactly once and arm the timers, for
+    every form of RequestShape (intended design passes, every named defect is rejected); Scenarios ShapeCases = the runs.
+    The six small TLC runs go side by side."""
+    raw = os.path.join(ctx.tmp, "Scenarios_shape_cases.jsonl")
+    with ThreadPoolExecutor(6) as ex:
+        ok = ex.submit(vlib.run_tlc, ctx, "lifecycle", "RequestForward", "RequestForward.cfg", workers=2)
+        bad = [(d, ex.submit(vlib.run_tlc, ctx, "lifecycle", "RequestForward", "RequestForward_defect_%s.cfg" % d, workers=2, expect_ok=False))
+               for d in SHAPE_DEFECTS]
+        cs = ex.submit(vlib.run_tlc, ctx, "lifecycle", "Scenarios", "Scenarios_shapes.cfg", workers=1, cases_to=raw)
+        ctx.add_tlc(ok.result())
+        for d, f in bad:
+            if f.result()["ok"]:
+                raise vlib.Inconclusive("RequestForward does not reject defect " + d)
+        ctx.add_tlc(cs.result())
+    return vlib.read_jsonl(raw)
+
+
+def shape_runs(ctx, rng):
+    """Request-shape cases on the in-process MOSN (driver started with the scripted body filter): every unguided case
+    of every protocol, and a VERIF_SEED sample of the guided ones."""
+    q = ctx.quick()
+    t0 = time.time()
+    cases = shape_model_checks(ctx)
+    t1 = time.time()
+    jobs, cov = [], {}
+    for proto, qshards, tshards in SHAPE_PROTOS:
+        mine = [c for c in cases if c["proto"] == proto]
+        plain = [c for c in mine if c["hold"] == "none"]
+        held = [c for c in mine if c["hold"] != "none"]
+        take = rng.sample(held, min(len(held), 60 if q else 400))
+        picked = plain + take
+        rng.shuffle(picked)
+        cov[proto] = dict(forms=len(set((c["wire"], c["fop"]) for c in mine)), unguided=len(plain), guided=len(take), guided_space=len(held))
+        jobs.append(dict(cases=picked, shards=qshards if q else tshards, extra_args=["-proto", proto, "-shapes"], tag="_shape_" + proto))
+    ctx.cov["request_shapes"] = cov
+    out = lc.run_sharded_many(ctx, "c03", jobs)
+    vlib.log("[shapes] %d request-shape runs: model checks %.1fs, runs %.1fs" % (sum(len(j["cases"]) for j in jobs), t1 - t0, time.time() - t1))
+    return [t for ts, _ in out for t in ts], [r for _, rs in out for r in rs]
+
+
+def c03_sig(pid, kind, case, rt):
+    """lifecycle_sig, plus the shape of the request for a request-shape case (the failing input class)."""
+    sig = lc.lifecycle_sig(pid, kind, case, rt)
+    if case.get("wire"):
+        sig += ":shape=%s/%s:wire=%s:filter=%s" % (case.get("data"), case.get("trailers"), case.get("wire"), case.get("fop"))
+    return sig
 
 
 def run(ctx):
@@ -39,9 +96,11 @@ def run(ctx):
     held = [c for c in cases if c["hold"] != "none" or c.get("steps")]
     h2_cases = [c for c in cases if c["hold"] == "none" and not c.get("steps")] + (rng.sample(held, min(len(held), 170)) if q else held)
     t4, r4 = lc.run_sharded(ctx, "c03", h2_cases, shards=8 if q else 14, extra_args=["-proto", "http2"], tag="_h2")
-    ctx.cov["protocols"] = {"http1": len(results), "bolt": len(r2), "bolt-oneway": len(r3), "http2": len(r4)}
-    traces, results = traces + t2 + t3 + t4, results + r2 + r3 + r4
-    lc.validate(ctx, "C03", traces, results, kinds_for_property=None, sigfn=lc.lifecycle_sig,
+    # the shape of the request as a value class: wire forms of every protocol x what a body-replacing filter does
+    t5, r5 = shape_runs(ctx, rng)
+    ctx.cov["protocols"] = {"http1": len(results), "bolt": len(r2), "bolt-oneway": len(r3), "http2": len(r4), "request-shapes": len(r5)}
+    traces, results = traces + t2 + t3 + t4 + t5, results + r2 + r3 + r4 + r5
+    lc.validate(ctx, "C03", traces, results, kinds_for_property=None, sigfn=c03_sig,
                 ignore_kinds=lc.RESOURCE_KINDS[:3])   # the clusters' breaker books at quiesce are C10's to judge
     repotests_part.finish(ctx, rt, "C03")
     ctx.cov["exhaustive"] = not q
@@ -51,4 +110,9 @@ def run(ctx):
                        "VERIF_SEED sample of the rest" % len(cases))
     ctx.assumptions += ["HTTP/1 (all cases), HTTP/2 (quick: no-hold cases plus a sample of the held ones; thorough: all) and bolt two-way / one-way (no-hold cases plus a sample of the held ones) downstream and upstream; one request at a time while a gate is held",
                         "bounded time is observed as: reply within global timeout + 700 ms after the last gate was released",
-                        "retry budget of the routes used = max(3, num_retries=2) = 3 (retrystate.go)"]
+                        "retry budget of the routes used = max(3, num_retries=2) = 3 (retrystate.go)",
+                        "request shapes: every pair (body buffer absent | of length zero | bytes) x (trailers absent | present) is reached - natively by the wire forms "
+                        "of HTTP/1 (5), HTTP/2 (7: HEADERS / empty DATA / DATA / trailers sequences), bolt two-way and one-way (2 each), and through a scripted "
+                        "stream filter that strips / fills the body or sets trailers (SetRequestData / SetRequestTrailers) on each of them; every unguided case "
+                        "(upstream answers / never answers / first host refused / per-try timeout then retry) is run, the guided ones are sampled by VERIF_SEED; "
+                        "left out: trailers without a body buffer towards an HTTP/2 upstream (only a filter produces it; the HTTP/2 client stream cannot send it)"]
